@@ -30,6 +30,9 @@ func usage() {
 }
 
 func main() {
+	if v := os.Getenv("GOVC_ALTPAT"); v != "" {
+		fmt.Sscan(v, &altPatternRounds)
+	}
 	if len(os.Args) < 2 {
 		usage()
 	}
@@ -334,22 +337,22 @@ func judge(prop, tier string, seed int, res *runResult, start time.Time, writeBa
 	sort.Strings(trusted)
 	ev := &Evidence{PropertyID: prop, Tier: tier, Seed: seed, Level: "proof", WallS: time.Since(start).Seconds(), Violations: len(seenV)}
 	ev.Coverage = map[string]any{
-		"obligations":          claimed,
-		"discharged":           discharged,
-		"checker_cmd":          fmt.Sprintf("bin/govc check %s --tier %s  (per obligation: z3-new -smt2 <file>; z3; cvc5)", prop, tier),
-		"trusted_base":         trusted,
-		"samples":              samples,
-		"functions":            funcs,
-		"per_backend":          perSolver,
-		"solver_secs":          solverSecs,
-		"undecided":            undecided,
-		"known_findings":       knownHit,
-		"baseline_missing":     missing,
-		"type_tags":            res.tags,
-		"contract_errors":      res.errs,
-		"unbound_contracts":    unbound,
-		"integer_model":        "mathematical Int with Go wrap-around applied on every + - * and narrowing conversion (mod 2^n); functions marked `arith checked` prove absence of overflow instead",
-		"explanation":          "each obligation is one SMT query (assumptions AND path condition AND NOT goal) generated from go/ssa of /repo's working tree; discharged = unsat by at least one solver and sat by none",
+		"obligations":       claimed,
+		"discharged":        discharged,
+		"checker_cmd":       fmt.Sprintf("bin/govc check %s --tier %s  (per obligation: z3-new -smt2 <file>; z3; cvc5)", prop, tier),
+		"trusted_base":      trusted,
+		"samples":           samples,
+		"functions":         funcs,
+		"per_backend":       perSolver,
+		"solver_secs":       solverSecs,
+		"undecided":         undecided,
+		"known_findings":    knownHit,
+		"baseline_missing":  missing,
+		"type_tags":         res.tags,
+		"contract_errors":   res.errs,
+		"unbound_contracts": unbound,
+		"integer_model":     "mathematical Int with Go wrap-around applied on every + - * and narrowing conversion (mod 2^n); functions marked `arith checked` prove absence of overflow instead",
+		"explanation":       "each obligation is one SMT query (assumptions AND path condition AND NOT goal) generated from go/ssa of /repo's working tree; discharged = unsat by at least one solver and sat by none",
 	}
 	for k, v := range res.extra {
 		ev.Coverage[k] = v
